@@ -502,6 +502,27 @@ fn hook() -> bool {
 
 static mut BOX_SIZE: usize = 0;
 
+/// start time (ms since the epoch) of the scenario being run, 0 when idle
+static SCEN_START: std::sync::atomic::AtomicU64 = std::sync::atomic::AtomicU64::new(0);
+const SCEN_LIMIT_MS: u64 = 20_000;
+
+fn now_ms() -> u64 {
+    std::time::SystemTime::now().duration_since(std::time::UNIX_EPOCH).map(|d| d.as_millis() as u64).unwrap_or(0)
+}
+
+/// A (mutated) runtime may loop for ever inside one callback: a watchdog thread turns that into a process
+/// abort, which the runner reports as `ABORT` for that scenario before carrying on with the next.
+fn start_watchdog() {
+    std::thread::spawn(|| loop {
+        std::thread::sleep(std::time::Duration::from_millis(250));
+        let s = SCEN_START.load(std::sync::atomic::Ordering::SeqCst);
+        if s != 0 && now_ms().saturating_sub(s) > SCEN_LIMIT_MS {
+            eprintln!("watchdog: scenario exceeded its time limit");
+            std::process::abort();
+        }
+    });
+}
+
 /// Size of `Box<TaskState>`: the watched allocation whose address ends up in context slot 0.
 fn calibrate() -> usize {
     for size in (8..=1024).step_by(8) {
@@ -553,6 +574,13 @@ fn rewrite_box_tokens(log: Vec<String>) -> Vec<String> {
 }
 
 fn scenario(line: &str) -> String {
+    SCEN_START.store(now_ms(), std::sync::atomic::Ordering::SeqCst);
+    let r = scenario_inner(line);
+    SCEN_START.store(0, std::sync::atomic::Ordering::SeqCst);
+    r
+}
+
+fn scenario_inner(line: &str) -> String {
     let secs: Vec<&str> = line.split(';').map(|s| s.trim()).collect();
     assert!(secs.len() == 5, "bad line");
     let hd: Vec<&str> = secs[0].split_whitespace().collect();
@@ -593,6 +621,7 @@ fn scenario(line: &str) -> String {
 }
 
 pub fn main() {
+    start_watchdog();
     let sz = calibrate();
     unsafe { BOX_SIZE = sz };
     drive::run_lines(scenario);
